@@ -29,7 +29,7 @@
 From stdpp Require Import gmap.
 From RecordUpdate Require Import RecordSet.
 From Coq Require Import ZArith NArith List Bool Lia Strings.Byte Strings.String.
-Require Import Regen.Base.Bytes Regen.Base.Regex Regen.Base.Calendar Regen.Dec.Dec Regen.Dec.DecLemmas
+Require Import Regen.Base.Bytes Regen.Base.Regex Regen.Base.RegexProps Regen.Base.Calendar Regen.Dec.Dec Regen.Dec.DecLemmas
                Regen.Dec.DecIface Regen.Ids.Ids Regen.Ids.IdsProps Regen.Generated.IdConsts.
 Require Import Regen.Ledger.Types Regen.Ledger.Msgs Regen.Ledger.Orm Regen.Ledger.BaseMsgs
                Regen.Ledger.BasketMsgs Regen.Ledger.MarketMsgs Regen.Ledger.Step
@@ -149,7 +149,7 @@ Lemma order_quantity_valid o : order_ok o ->
 Proof.
   intros (x & Hp & Hok & Hpos). split.
   - destruct (so_quantity o) eqn:E; [|reflexivity].
-    assert (Hx : x = mkDec false 0 0) by (vm_compute in Hp; congruence). subst x. cbn in Hpos. lia.
+    assert (Hx : x = mkDec false 0 0) by (vm_compute in Hp; congruence). subst x. vm_compute in Hpos. discriminate Hpos.
   - unfold nn_string_ok, non_negative_dec_from_string. rewrite Hp, (in_ok_not_negative x Hok). reflexivity.
 Qed.
 
@@ -159,4 +159,551 @@ Proof.
   unfold nn_string_ok, positive_dec_from_string, non_negative_dec_from_string.
   destruct (parse str) as [x|]; [|discriminate].
   unfold is_positive, is_negative. destruct (dneg x); cbn; [discriminate|reflexivity].
+Qed.
+
+Lemma finish_inv' neg C xs a : finish neg C xs = Ok a -> dneg a = neg /\ dcoef a = C.
+Proof.
+  unfold finish, bind, round0. destruct (set_exponent (mkDec neg C 0) xs) as [d1|] eqn:E1; [|discriminate].
+  destruct (set_exponent d1 [dexp d1]) as [d2|] eqn:E2; [|discriminate].
+  destruct (dcoef d2 <? 0); [discriminate|]. intros Ha. injection Ha as <-.
+  apply set_exponent_inv in E1. apply set_exponent_inv in E2. cbn [dneg dcoef] in *.
+  destruct E1 as (A1 & A2 & _). destruct E2 as (B1 & B2 & _). split; congruence.
+Qed.
+
+(* the rendering of a negative sdk.Int is rejected by NewNonNegativeDecFromString *)
+Lemma ask_negative_invalid z : z < 0 -> nn_string_ok (ask_string z) = false.
+Proof.
+  intros Hz. unfold ask_string, dec_of_int. rewrite (proj2 (Z.ltb_lt z 0) Hz).
+  set (c := Z.abs z). assert (Hc : 0 < c) by (subst c; lia). clearbody c. clear Hz z.
+  destruct (Z_to_dec_spec c ltac:(lia)) as (Hne & Hall & Hval).
+  unfold to_string. cbn [dneg dcoef dexp]. change (0 <? 0) with false. cbv iota.
+  change (zeros 0) with (@nil byte). rewrite app_nil_r.
+  destruct (Z_to_dec c) as [|f r] eqn:E; [congruence|].
+  pose proof Hall as Hall0. cbn [forallb] in Hall. apply andb_true_iff in Hall. destruct Hall as [Hf Hr].
+  unfold nn_string_ok, non_negative_dec_from_string.
+  pose proof (parse_plain true f r Hf (digits_plain r Hr)) as Hpp. cbv iota in Hpp. rewrite Hpp. clear Hpp.
+  rewrite pf_nopoint; [|discriminate|exact Hall0].
+  rewrite Hval. destruct (finish true c []) as [a|] eqn:Ef; [|reflexivity].
+  apply finish_inv' in Ef. destruct Ef as [En Ec].
+  unfold is_negative, is_zero. rewrite En, Ec.
+  assert (Ez : (c =? 0) = false) by (apply Z.eqb_neq; lia). rewrite Ez. reflexivity.
+Qed.
+
+Lemma ask_valid_nonneg z : nn_string_ok (ask_string z) = true -> 0 <= z.
+Proof.
+  intros Hv. destruct (Z_lt_le_dec z 0) as [Hlt|Hle]; [|exact Hle].
+  rewrite (ask_negative_invalid z Hlt) in Hv. discriminate.
+Qed.
+
+(* ------------------------------------------------------------------ *)
+(* the part of the validators that does not read amounts ("meta")       *)
+(* ------------------------------------------------------------------ *)
+
+(* the sell-order validator without the two amount strings, plus the sign of the ask amount *)
+Definition so_struct_ok (id : N) (o : sell_order) : bool :=
+  nz id && nz (so_batch_key o) && nz (so_market_id o) && (0 <=? so_ask_amount o).
+
+Record MV (d : bool) (s : state) : Prop := {
+  mv_ct : forall k v, credit_types s !! k = Some v -> valid_credit_type k v = true;
+  mv_cl : forall k v, classes s !! k = Some v -> valid_class k v = true;
+  mv_is : forall k, k ∈ class_issuers s -> valid_class_issuer k = true;
+  mv_pj : forall k v, projects s !! k = Some v -> valid_project k v = true;
+  mv_ba : forall k v, batches s !! k = Some v -> vbd d k v = true;
+  mv_cs : forall k v, class_sequences s !! k = Some v -> valid_class_sequence k v = true;
+  mv_ps : forall k v, project_sequences s !! k = Some v -> valid_project_sequence k v = true;
+  mv_bs : forall k v, batch_sequences s !! k = Some v -> valid_batch_sequence k v = true;
+  mv_ot : forall k, k ∈ origin_txs s -> valid_origin_tx_index k = true;
+  mv_bc : forall k v, batch_contracts s !! k = Some v -> valid_batch_contract k v = true;
+  mv_cf : valid_class_fee (class_fee s) = true;
+  mv_br : forall k, k ∈ allowed_bridge_chains s -> valid_allowed_bridge_chain k = true;
+  mv_bk : forall k v, baskets s !! k = Some v -> valid_basket k v = true;
+  mv_kc : forall k, k ∈ basket_classes s -> valid_basket_class k = true;
+  mv_bf : valid_basket_fee (basket_fee s) = true;
+  mv_so : forall k v, sell_orders s !! k = Some v -> so_struct_ok k v = true;
+  mv_ad : forall k v, allowed_denoms s !! k = Some v -> valid_allowed_denom k v = true;
+  mv_mk : forall k v, markets s !! k = Some v -> valid_market k v = true
+}.
+
+Lemma valid_sell_order_struct k o : valid_sell_order k o = true -> so_struct_ok k o = true.
+Proof.
+  unfold valid_sell_order, so_struct_ok. intros Hv. bdestr Hv. bsplit; try assumption.
+  apply Z.leb_le. apply ask_valid_nonneg. assumption.
+Qed.
+
+(* (1) every validated state is meta-valid *)
+Lemma rows_MV d s : Inv_valid_d d s -> MV d s.
+Proof.
+  unfold Inv_valid_d, validate_rows_with. intros Hv. bdestr Hv.
+  repeat match goal with
+         | Hm : map_forallb _ _ = true |- _ => rewrite map_forallb_spec in Hm
+         | Hm : set_forallb _ _ = true |- _ => rewrite set_forallb_spec in Hm
+         end.
+  constructor; try assumption.
+  intros k v Hk. apply valid_sell_order_struct. auto.
+Qed.
+
+Lemma vbd_nz d k ba : vbd d k ba = true -> nz k = true /\ validate_batch_denom (ba_denom ba) = true.
+Proof. unfold vbd, valid_batch_except_dates. intros Hv. bdestr Hv. split; assumption. Qed.
+
+(* (3) a meta-valid state whose amounts obey the ledger invariant validates *)
+Theorem amounts_valid d s : MV d s -> Inv_core s -> small_state s -> Inv_valid_d d s.
+Proof.
+  intros Hm (_ & (Sb & Ss & Sbb & So) & (_ & Ksup & Kbal & Kbb & Kso & _) & _ & _) (Lb & Ls & Lbb & Lo).
+  destruct Hm. unfold Inv_valid_d, validate_rows_with. bsplit;
+    try (apply map_forallb_spec; assumption); try (apply set_forallb_spec; assumption); try assumption.
+  - (* balances *)
+    apply map_forallb_spec. intros [a bk] bl Hb. unfold valid_batch_balance. cbn [fst snd].
+    destruct (Kbal a bk bl Hb) as [ba Hba]. destruct (vbd_nz _ _ _ (mv_ba0 _ _ Hba)) as [Hnz _].
+    destruct (Sb _ _ Hb) as (S1 & S2 & S3). destruct (Lb _ _ Hb) as (L1 & L2 & L3).
+    rewrite Hnz, !stored_amount_valid by assumption. reflexivity.
+  - (* supplies *)
+    apply map_forallb_spec. intros bk su Hsu. unfold valid_batch_supply.
+    destruct (proj2 (Ksup bk) (ex_intro _ su Hsu)) as [ba Hba]. destruct (vbd_nz _ _ _ (mv_ba0 _ _ Hba)) as [Hnz _].
+    destruct (Ss _ _ Hsu) as (S1 & S2 & S3). destruct (Ls _ _ Hsu) as (L1 & L2 & L3).
+    rewrite Hnz, !stored_amount_valid by assumption. reflexivity.
+  - reflexivity.
+  - apply set_forallb_spec. reflexivity.
+  - (* basket balances *)
+    apply map_forallb_spec. intros [id dn] bb Hbb. unfold valid_basket_balance. cbn [fst snd].
+    destruct (Kbb id dn bb Hbb) as [(bk & ba & Hba & Hdn) [k Hk]].
+    destruct (vbd_nz _ _ _ (mv_ba0 _ _ Hba)) as [_ Hden]. rewrite Hdn in Hden.
+    pose proof (mv_bk0 _ _ Hk) as Hvk. unfold valid_basket in Hvk. bdestr Hvk.
+    destruct (Sbb _ _ Hbb) as [S1 _].
+    rewrite Hvk, Hden, stored_amount_valid by (try assumption; eapply Lbb; eassumption). reflexivity.
+  - (* sell orders *)
+    apply map_forallb_spec. intros id o Ho. unfold valid_sell_order.
+    pose proof (mv_so0 _ _ Ho) as Hst. unfold so_struct_ok in Hst. bdestr Hst.
+    destruct (order_quantity_valid o (So _ _ Ho)) as [Q1 Q2].
+    apply Z.leb_le in Hst0.
+    destruct (ask_amount_valid (so_ask_amount o) Hst0 (Lo _ _ Ho)) as [A1 A2].
+    rewrite Hst, Hst2, Hst1, Q1, Q2, A1, A2. reflexivity.
+Qed.
+
+(* ------------------------------------------------------------------ *)
+(* tools for walking through handlers                                  *)
+(* ------------------------------------------------------------------ *)
+
+Lemma fa_insert {K V} `{Countable K} (Pr : K -> V -> Prop) (m : gmap K V) k v :
+  Pr k v -> (forall k' v', m !! k' = Some v' -> Pr k' v') ->
+  forall k' v', <[k := v]> m !! k' = Some v' -> Pr k' v'.
+Proof. intros Hn Ho k' v' Hl. apply lookup_insert_Some in Hl. destruct Hl as [[<- <-]|[_ Hl]]; auto. Qed.
+
+Lemma fa_delete {K V} `{Countable K} (Pr : K -> V -> Prop) (m : gmap K V) k :
+  (forall k' v', m !! k' = Some v' -> Pr k' v') ->
+  forall k' v', delete k m !! k' = Some v' -> Pr k' v'.
+Proof. intros Ho k' v' Hl. apply lookup_delete_Some in Hl. destruct Hl as [_ Hl]. auto. Qed.
+
+Lemma fs_union {K} `{Countable K} (Pr : K -> Prop) (m : gset K) k :
+  Pr k -> (forall k', k' ∈ m -> Pr k') -> forall k', k' ∈ ({[ k ]} ∪ m : gset K) -> Pr k'.
+Proof. intros Hn Ho k' Hk. apply elem_of_union in Hk. destruct Hk as [Hk|Hk]; [apply elem_of_singleton in Hk; subst; exact Hn|auto]. Qed.
+
+Lemma fs_diff {K} `{Countable K} (Pr : K -> Prop) (m X : gset K) :
+  (forall k', k' ∈ m -> Pr k') -> forall k', k' ∈ m ∖ X -> Pr k'.
+Proof. intros Ho k' Hk. apply elem_of_difference in Hk. destruct Hk as [Hk _]. auto. Qed.
+
+Lemma lfold_rel {A B} (R : A -> A -> Prop) (f : A -> B -> lres A) :
+  (forall a, R a a) -> (forall a c e, R a c -> R c e -> R a e) ->
+  (forall a x a', f a x = LOk a' -> R a a') ->
+  forall l a a', lfold f l a = LOk a' -> R a a'.
+Proof.
+  intros Hr Ht Hf l. induction l as [|x l IH]; intros a a' Hl; cbn in Hl.
+  - inversion Hl. apply Hr.
+  - apply lbind_ok in Hl. destruct Hl as (a1 & H1 & H2). eapply Ht; [eapply Hf; exact H1 | apply IH; exact H2].
+Qed.
+
+Lemma lfold_pred {A B} (Q : B -> Prop) (Pr : A -> Prop) (f : A -> B -> lres A) :
+  (forall a x a', Q x -> Pr a -> f a x = LOk a' -> Pr a') ->
+  forall l a a', Forall Q l -> Pr a -> lfold f l a = LOk a' -> Pr a'.
+Proof.
+  intros Hf l. induction l as [|x l IH]; intros a a' Hq Hp Hl; cbn in Hl.
+  - inversion Hl; subst. exact Hp.
+  - apply lbind_ok in Hl. destruct Hl as (a1 & H1 & H2). inversion Hq; subst.
+    eapply IH; [assumption | eapply Hf; eassumption | exact H2].
+Qed.
+
+Lemma forallb_Forall {A} (f : A -> bool) l : forallb f l = true -> Forall (fun x => f x = true) l.
+Proof. intros Hf. apply Forall_forall. intros x Hx. rewrite forallb_forall in Hf. apply Hf. exact Hx. Qed.
+
+(* ------------------------------------------------------------------ *)
+(* frames: the tables MV reads                                         *)
+(* ------------------------------------------------------------------ *)
+
+Definition mtuple (s : state) :=
+  (credit_types s, classes s, class_issuers s, projects s, batches s, class_sequences s, project_sequences s,
+   batch_sequences s, origin_txs s, batch_contracts s, class_fee s, allowed_bridge_chains s, baskets s,
+   basket_classes s, basket_fee s, sell_orders s, allowed_denoms s, markets s).
+
+Definition meq (s s' : state) : Prop := mtuple s' = mtuple s.
+
+Lemma meq_refl s : meq s s. Proof. reflexivity. Qed.
+Lemma meq_trans s1 s2 s3 : meq s1 s2 -> meq s2 s3 -> meq s1 s3.
+Proof. unfold meq. congruence. Qed.
+
+Lemma meq_MV d s s' : meq s s' -> MV d s -> MV d s'.
+Proof.
+  unfold meq, mtuple. intros E.
+  injection E as E1 E2 E3 E4 E5 E6 E7 E8 E9 E10 E11 E12 E13 E14 E15 E16 E17 E18. intros [].
+  constructor; rewrite ?E1, ?E2, ?E3, ?E4, ?E5, ?E6, ?E7, ?E8, ?E9, ?E10, ?E11, ?E12, ?E13, ?E14, ?E15, ?E16, ?E17, ?E18;
+    assumption.
+Qed.
+
+Lemma nonbank_meq s s' : nonbank_eq s s' -> meq s s'.
+Proof.
+  unfold nonbank_eq, nonbank, meq, mtuple. intros E. injection E as ?????????? ?????????? ??????????.
+  congruence.
+Qed.
+
+Lemma update_balance_meq a k b s s' : update_balance a k b s = LOk s' -> meq s s'.
+Proof. intros Hu. apply update_balance_ok in Hu. destruct Hu as [-> _]. reflexivity. Qed.
+Lemma update_supply_meq k v s s' : update_supply k v s = LOk s' -> meq s s'.
+Proof. intros Hu. apply update_supply_ok in Hu. destruct Hu as [-> _]. reflexivity. Qed.
+
+Lemma mt_save_balance a k b s : mtuple (save_balance a k b s) = mtuple s. Proof. reflexivity. Qed.
+Lemma mt_set_balances m s : mtuple (s <| balances := m |>) = mtuple s. Proof. reflexivity. Qed.
+Lemma mt_set_supplies m s : mtuple (s <| supplies := m |>) = mtuple s. Proof. reflexivity. Qed.
+Lemma mt_set_basket_balances m s : mtuple (s <| basket_balances := m |>) = mtuple s. Proof. reflexivity. Qed.
+
+Global Hint Rewrite mt_save_balance mt_set_balances mt_set_supplies mt_set_basket_balances : mt.
+
+Ltac meq_chain :=
+  repeat match goal with
+         | Hu : update_balance _ _ _ ?s = LOk ?s' |- _ => apply update_balance_meq in Hu
+         | Hu : update_supply _ _ ?s = LOk ?s' |- _ => apply update_supply_meq in Hu
+         end;
+  unfold meq in *; autorewrite with mt in *; congruence.
+
+Ltac split_ifs :=
+  repeat match goal with
+         | Hi : (if ?c then _ else _) = LOk _ |- _ => destruct c eqn:?; linv1 Hi
+         end.
+
+Lemma add_and_save_balance_meq a k amt s s' : add_and_save_balance a k amt s = LOk s' -> meq s s'.
+Proof. unfold add_and_save_balance. intros Hh. linv Hh. reflexivity. Qed.
+Lemma retire_and_save_balance_meq a k amt s s' : retire_and_save_balance a k amt s = LOk s' -> meq s s'.
+Proof. unfold retire_and_save_balance. intros Hh. linv Hh. reflexivity. Qed.
+Lemma retire_supply_meq k amt s s' : retire_supply k amt s = LOk s' -> meq s s'.
+Proof. unfold retire_supply. intros Hh. linv Hh. meq_chain. Qed.
+
+Lemma send_tradable_meq bk a c amt s s' : send_tradable bk a c amt s = LOk s' -> meq s s'.
+Proof. unfold send_tradable. intros Hh. linv Hh. meq_chain. Qed.
+Lemma send_retired_meq bk a c amt s s' : send_retired bk a c amt s = LOk s' -> meq s s'.
+Proof. unfold send_retired. intros Hh. linv Hh. meq_chain. Qed.
+
+Lemma send_one_meq a c s x s' : send_one a c s x = LOk s' -> meq s s'.
+Proof.
+  unfold send_one. intros Hh. linv Hh. split_ifs;
+    repeat match goal with
+           | Hs : send_tradable _ _ _ _ _ = LOk _ |- _ => apply send_tradable_meq in Hs
+           | Hs : send_retired _ _ _ _ _ = LOk _ |- _ => apply send_retired_meq in Hs
+           end; unfold meq in *; congruence.
+Qed.
+
+Lemma retire_one_meq a s x s' : retire_one a s x = LOk s' -> meq s s'.
+Proof. unfold retire_one. intros Hh. linv Hh. meq_chain. Qed.
+Lemma cancel_one_meq a s x s' : cancel_one a s x = LOk s' -> meq s s'.
+Proof. unfold cancel_one. intros Hh. linv Hh. meq_chain. Qed.
+
+Lemma lfold_meq {B} (f : state -> B -> lres state) :
+  (forall s x s', f s x = LOk s' -> meq s s') -> forall l s s', lfold f l s = LOk s' -> meq s s'.
+Proof. intros Hf. apply (lfold_rel meq f meq_refl meq_trans Hf). Qed.
+
+Lemma mint_issue_meq p bk s i s' : mint_issue p bk s i = LOk s' -> meq s s'.
+Proof. unfold mint_issue. intros Hh. linv Hh. meq_chain. Qed.
+
+(* ------------------------------------------------------------------ *)
+(* (2) handlers preserve MV: the credit movers only touch amount tables *)
+(* ------------------------------------------------------------------ *)
+
+Lemma ret_inv s r s' r' evs : ret s r = LOk (s', r', evs) -> s' = s.
+Proof. unfold ret. intros Hr. inversion Hr. reflexivity. Qed.
+
+Lemma h_send_meq e s a c cs s' r evs : h_send e s a c cs = LOk (s', r, evs) -> meq s s'.
+Proof.
+  unfold h_send. intros Hh. lstep Hh as s1 H1. apply ret_inv in Hh. subst s'.
+  eapply lfold_meq; [|exact H1]. intros; eapply send_one_meq; eassumption.
+Qed.
+
+Lemma h_retire_meq e s a cs s' r evs : h_retire e s a cs = LOk (s', r, evs) -> meq s s'.
+Proof.
+  unfold h_retire. intros Hh. lstep Hh as s1 H1. apply ret_inv in Hh. subst s'.
+  eapply lfold_meq; [|exact H1]. intros; eapply retire_one_meq; eassumption.
+Qed.
+
+Lemma h_cancel_meq e s a cs s' r evs : h_cancel e s a cs = LOk (s', r, evs) -> meq s s'.
+Proof.
+  unfold h_cancel. intros Hh. lstep Hh as s1 H1. apply ret_inv in Hh. subst s'.
+  eapply lfold_meq; [|exact H1]. intros; eapply cancel_one_meq; eassumption.
+Qed.
+
+Lemma h_bridge_meq e s a t rc cs s' r evs : h_bridge e s a t rc cs = LOk (s', r, evs) -> meq s s'.
+Proof.
+  unfold h_bridge. intros Hh. lstep Hh as u Hu. lstep Hh as s1 H1. lstep Hh as ev Hev. inversion Hh; subst.
+  eapply lfold_meq; [|exact H1]. intros; eapply cancel_one_meq; eassumption.
+Qed.
+
+Lemma send_coins_meq a c cs s s' : send_coins a c cs s = LOk s' -> meq s s'.
+Proof. intros Hh. apply nonbank_meq. eapply send_coins_nonbank. exact Hh. Qed.
+Lemma send_m2a_meq a c cs s s' : send_coins_from_module_to_account a c cs s = LOk s' -> meq s s'.
+Proof. intros Hh. apply nonbank_meq. eapply send_coins_m2a_nonbank. exact Hh. Qed.
+Lemma mint_coins_meq a cs s s' : mint_coins a cs s = LOk s' -> meq s s'.
+Proof. intros Hh. apply nonbank_meq. eapply mint_coins_nonbank. exact Hh. Qed.
+Lemma burn_coins_meq a cs s s' : burn_coins a cs s = LOk s' -> meq s s'.
+Proof. intros Hh. apply nonbank_meq. eapply burn_coins_nonbank. exact Hh. Qed.
+Lemma charge_fee_meq rq off p m s s' : charge_fee rq off p m s = LOk s' -> meq s s'.
+Proof. intros Hh. apply nonbank_meq. eapply charge_fee_nonbank. exact Hh. Qed.
+
+Lemma h_burn_regen_meq e s a amt s' r evs : h_burn_regen e s a amt = LOk (s', r, evs) -> meq s s'.
+Proof.
+  unfold h_burn_regen. intros Hh. lstep Hh as z Hz. lstep Hh as u Hu. lstep Hh as cs Hcs.
+  lstep Hh as s1 H1. lstep Hh as s2 H2. apply ret_inv in Hh. subst s'.
+  eapply meq_trans; [eapply send_coins_meq; exact H1 | eapply burn_coins_meq; exact H2].
+Qed.
+
+(* ---- basket Put / Take ---- *)
+
+Lemma transfer_to_basket_meq o amt id bkey ba p s s' : transfer_to_basket o amt id bkey ba p s = LOk s' -> meq s s'.
+Proof.
+  unfold transfer_to_basket. intros Hh. lstep Hh as ub Hub. lstep Hh as u Hu. lstep Hh as nt Hnt. lstep Hh as s1 H1.
+  destruct (basket_balances s1 !! (id, ba_denom ba)); linv Hh; meq_chain.
+Qed.
+
+Lemma put_one_meq e o id k p acc c acc' : put_one e o id k p acc c = LOk acc' -> meq acc.1 acc'.1.
+Proof.
+  unfold put_one. destruct acc as [s rc]. intros Hh. lstep Hh as kb Hkb. destruct kb as [bkey ba].
+  lstep Hh as u Hu. lstep Hh as amt Hamt. lstep Hh as s1 H1. lstep Hh as tk Htk. inversion Hh; subst. cbn.
+  eapply transfer_to_basket_meq. exact H1.
+Qed.
+
+Lemma h_put_meq e s o bd cs s' r evs : h_put e s o bd cs = LOk (s', r, evs) -> meq s s'.
+Proof.
+  unfold h_put. intros Hh. lstep Hh as ik Hik. destruct ik as [id k]. lstep Hh as cty Hcty.
+  lstep Hh as acc Hacc. destruct acc as [s1 rc]. lstep Hh as s2 H2. lstep Hh as s3 H3. apply ret_inv in Hh. subst s'.
+  assert (M1 : meq s s1).
+  { change s with (s, 0).1. change s1 with (s1, rc).1.
+    eapply (lfold_rel (fun a c => meq a.1 c.1)); [intros; apply meq_refl | intros ? ? ? A B; eapply meq_trans; eassumption | | exact Hacc].
+    intros; eapply put_one_meq; eassumption. }
+  eapply meq_trans; [exact M1|]. eapply meq_trans; [eapply mint_coins_meq; exact H2 | eapply send_m2a_meq; exact H3].
+Qed.
+
+Lemma add_credit_balance_meq o dn amt rt s s' : add_credit_balance o dn amt rt s = LOk s' -> meq s s'.
+Proof.
+  unfold add_credit_balance. intros Hh. lstep Hh as kb Hkb. destruct kb as [bkey ba]. destruct rt.
+  - lstep Hh as s1 H1. eapply meq_trans; [eapply retire_and_save_balance_meq; exact H1 | eapply retire_supply_meq; exact Hh].
+  - eapply add_and_save_balance_meq. exact Hh.
+Qed.
+
+Lemma take_loop_meq o id rt : forall fuel needed acc s s' acc',
+  take_loop fuel o id rt needed acc s = LOk (s', acc') -> meq s s'.
+Proof.
+  induction fuel as [|fuel IH]; intros needed acc s s' acc' Hh; cbn [take_loop] in Hh; [discriminate|].
+  destruct (basket_rows s id) as [|[dn bb] rest]; [discriminate|].
+  destruct (cmp (bb_balance bb) needed) eqn:Ec.
+  - lstep Hh as s1 H1. inversion Hh; subst. apply add_credit_balance_meq in H1. meq_chain.
+  - lstep Hh as s1 H1. lstep Hh as nd Hnd. apply IH in Hh. apply add_credit_balance_meq in H1.
+    unfold meq in *. autorewrite with mt in *. congruence.
+  - lstep Hh as s1 H1. lstep Hh as nb Hnb. lstep Hh as m Hm. inversion Hh; subst. apply add_credit_balance_meq in H1. meq_chain.
+Qed.
+
+Lemma h_take_meq e s o bd amt rt s' r evs : h_take e s o bd amt rt = LOk (s', r, evs) -> meq s s'.
+Proof.
+  unfold h_take. intros Hh. lstep Hh as ik Hik. destruct ik as [id k]. lstep Hh as cty Hcty. lstep Hh as u Hu.
+  lstep Hh as tk Htk. lstep Hh as coins Hc. lstep Hh as u2 Hu2. lstep Hh as s1 H1. lstep Hh as s2 H2.
+  lstep Hh as am Ham. lstep Hh as nd Hnd. lstep Hh as sc Hsc. destruct sc as [s3 credits]. apply ret_inv in Hh. subst s'.
+  eapply meq_trans; [eapply send_coins_meq; exact H1|]. eapply meq_trans; [eapply burn_coins_meq; exact H2|].
+  eapply take_loop_meq. exact Hsc.
+Qed.
+
+(* ------------------------------------------------------------------ *)
+(* (2) row-writing handlers of the base module                         *)
+(* ------------------------------------------------------------------ *)
+
+Lemma nz_succ n : nz (n + 1) = true.
+Proof. unfold nz. apply negb_true_iff. apply N.eqb_neq. lia. Qed.
+
+Lemma class_by_id_Some s id k c : class_by_id s id = Some (k, c) -> classes s !! k = Some c /\ cl_id c = id.
+Proof.
+  unfold class_by_id. intros Hf. apply map_find_Some in Hf. destruct Hf as [H1 H2].
+  split; [exact H1|]. apply bytes_eqb_eq. exact H2.
+Qed.
+Lemma project_by_id_Some s id k p : project_by_id s id = Some (k, p) -> projects s !! k = Some p /\ pj_id p = id.
+Proof.
+  unfold project_by_id. intros Hf. apply map_find_Some in Hf. destruct Hf as [H1 H2].
+  split; [exact H1|]. apply bytes_eqb_eq. exact H2.
+Qed.
+Lemma basket_by_denom_Some s dn k v : basket_by_denom s dn = Some (k, v) -> baskets s !! k = Some v /\ bk_denom v = dn.
+Proof.
+  unfold basket_by_denom. intros Hf. apply map_find_Some in Hf. destruct Hf as [H1 H2].
+  split; [exact H1|]. apply bytes_eqb_eq. exact H2.
+Qed.
+
+(* tactic: MV of a state obtained from a meta-valid one by record updates; leaves the touched tables *)
+Ltac mv_updates Hmv := destruct Hmv; constructor; cbn; try assumption.
+
+Lemma set_issuers_twice s x y : s <| class_issuers := x |> <| class_issuers := y |> = s <| class_issuers := y |>.
+Proof. destruct s; reflexivity. Qed.
+
+Lemma insert_issuers_spec k l : forall s s', insert_issuers k l s = LOk s' ->
+  exists iss, s' = s <| class_issuers := iss |> /\ (forall x, x ∈ iss -> x ∈ class_issuers s \/ x.1 = k).
+Proof.
+  induction l as [|a l IH]; intros s s' Hh; cbn in Hh.
+  - inversion Hh; subst. exists (class_issuers s'). split; [destruct s'; reflexivity|]. intros x Hx. left. exact Hx.
+  - destruct (bool_decide _); [discriminate|]. apply IH in Hh. destruct Hh as (iss & -> & Hiss).
+    exists iss. split; [apply set_issuers_twice|]. intros x Hx. destruct (Hiss x Hx) as [Ho|Ho]; [|right; exact Ho].
+    cbn in Ho. apply elem_of_union in Ho. destruct Ho as [Ho|Ho]; [|left; exact Ho].
+    apply elem_of_singleton in Ho. subst x. right. reflexivity.
+Qed.
+
+Lemma MV_set_issuers d s iss k : MV d s -> nz k = true ->
+  (forall x, x ∈ iss -> x ∈ class_issuers s \/ x.1 = k) -> MV d (s <| class_issuers := iss |>).
+Proof.
+  intros Hmv Hk Hiss. mv_updates Hmv. intros x Hx. destruct (Hiss x Hx) as [Ho|Ho]; [auto|].
+  unfold valid_class_issuer. rewrite Ho, Hk. reflexivity.
+Qed.
+
+(* (b) CreateClass: the id is a format_class_id output, hence valid by IdsProps.class_id_valid *)
+Lemma h_create_class_MV d e s admin issuers metadata ct fee s' r evs :
+  MV d s -> len_le metadata max_metadata_length = true -> validate_credit_type_abbrev ct = true ->
+  h_create_class e s admin issuers metadata ct fee = LOk (s', r, evs) -> MV d s'.
+Proof.
+  intros Hmv Hmd Hct. unfold h_create_class. intros Hh.
+  lstep Hh as u Hu. lstep Hh as s1 H1. lstep Hh as cty Hcty. lstep Hh as u2 Hu2. lstep Hh as s2 H2.
+  apply ret_inv in Hh. subst s'.
+  apply charge_fee_meq in H1. apply (meq_MV d _ _ H1) in Hmv. clear H1 Hu s.
+  apply insert_issuers_spec in H2. destruct H2 as (iss & -> & Hiss).
+  apply MV_set_issuers with (k := (class_seq_id s1 + 1)%N); [|apply nz_succ|exact Hiss].
+  mv_updates Hmv.
+  - apply fa_insert; [|assumption]. unfold valid_class. cbn.
+    rewrite nz_succ, (class_id_valid ct _ Hct), Hmd, Hct. reflexivity.
+  - apply fa_insert; [|assumption]. unfold valid_class_sequence. rewrite Hct, nz_succ. reflexivity.
+Qed.
+
+(* CreateProject *)
+Lemma h_create_project_MV d e s admin class_id metadata jurisdiction reference_id s' r evs :
+  MV d s -> len_le metadata max_metadata_length = true -> validate_jurisdiction jurisdiction = true ->
+  h_create_project e s admin class_id metadata jurisdiction reference_id = LOk (s', r, evs) -> MV d s'.
+Proof.
+  intros Hmv Hmd Hj. unfold h_create_project. intros Hh.
+  lstep Hh as kc Hkc. destruct kc as [ck cl]. lstep Hh as u Hu. lstep Hh as u2 Hu2. lstep Hh as u3 Hu3.
+  apply ret_inv in Hh. subst s'.
+  apply class_by_id_Some in Hkc. destruct Hkc as [Hcl _].
+  pose proof (mv_cl d s Hmv _ _ Hcl) as Hvc. unfold valid_class in Hvc. bdestr Hvc.
+  mv_updates Hmv.
+  - apply fa_insert; [|assumption]. unfold valid_project. cbn.
+    rewrite nz_succ, (format_project_id_valid _ _ Hvc3), Hvc, Hj, Hmd. reflexivity.
+  - apply fa_insert; [|assumption]. unfold valid_project_sequence. rewrite Hvc, nz_succ. reflexivity.
+Qed.
+
+(* ---- origin txs: the source is stored lower-cased; the regex classes are closed under lower-casing ---- *)
+
+Definition class_src_first : list (byte * byte) := [(x30, x39); (x41, x5a); (x61, x7a)].
+Definition class_src_rest : list (byte * byte) := [(x20, x20); (x2d, x2d); (x30, x39); (x41, x5a); (x5f, x5f); (x61, x7a)].
+
+Lemma lower_first c : in_ranges class_src_first c = true -> in_ranges class_src_first (to_lower_byte c) = true.
+Proof. destruct c; intros Hc; try discriminate Hc; reflexivity. Qed.
+Lemma lower_rest c : in_ranges class_src_rest c = true -> in_ranges class_src_rest (to_lower_byte c) = true.
+Proof. destruct c; intros Hc; try discriminate Hc; reflexivity. Qed.
+
+Lemma origin_source_lower src : rmatch re_origin_tx_source src = true -> rmatch re_origin_tx_source (to_lower src) = true.
+Proof.
+  rewrite !rmatch_correct. unfold re_origin_tx_source. fold class_src_first. fold class_src_rest.
+  rewrite !matches_cat. intros (s1 & s2 & -> & H1 & H2).
+  apply matches_class in H1. destruct H1 as (c & -> & Hc). apply matches_rep_class in H2. destruct H2 as [Hl Ha].
+  exists [to_lower_byte c], (to_lower s2). split; [reflexivity|]. split.
+  - apply matches_class. exists (to_lower_byte c). split; [reflexivity|apply lower_first; exact Hc].
+  - apply matches_rep_class. split; [unfold to_lower; rewrite map_length; exact Hl|].
+    unfold all_in, to_lower. apply Forall_forall. intros x Hx. apply in_map_iff in Hx. destruct Hx as (y & <- & Hy).
+    apply lower_rest. unfold all_in in Ha. rewrite Forall_forall in Ha. apply Ha. exact Hy.
+Qed.
+
+Lemma nonempty_to_lower x : nonempty x = true -> nonempty (to_lower x) = true.
+Proof. destruct x; [discriminate|reflexivity]. Qed.
+
+Lemma validate_with_inv r x : validate_with r x = true -> nonempty x = true /\ rmatch r x = true.
+Proof. unfold validate_with. destruct x; [discriminate|]. intros Hv. split; [reflexivity|exact Hv]. Qed.
+
+Lemma vb_origin_tx_row ck o : nz ck = true -> vb_origin_tx o = true ->
+  valid_origin_tx_index (ck, ot_id o, to_lower (ot_source o)) = true.
+Proof.
+  intros Hk Hv. unfold vb_origin_tx in Hv. bdestr Hv.
+  apply validate_with_inv in Hv4. apply validate_with_inv in Hv2. destruct Hv4 as [A1 A2]. destruct Hv2 as [B1 B2].
+  unfold valid_origin_tx_index. rewrite Hk, A1, A2, (nonempty_to_lower _ B1), (origin_source_lower _ B2). reflexivity.
+Qed.
+
+Lemma insert_origin_tx_MV d ck o s s' : MV d s -> nz ck = true -> vb_origin_tx o = true ->
+  insert_origin_tx ck o s = LOk s' -> MV d s'.
+Proof.
+  intros Hmv Hk Hv. unfold insert_origin_tx. destruct (bool_decide _); [discriminate|]. intros Hh. inversion Hh; subst.
+  mv_updates Hmv. apply fs_union; [|assumption]. apply vb_origin_tx_row; assumption.
+Qed.
+
+(* ---- MintBatchCredits ---- *)
+
+Lemma project_class_nz d s pk pj : MV d s -> projects s !! pk = Some pj -> nz pk = true /\ nz (pj_class_key pj) = true /\ validate_project_id (pj_id pj) = true.
+Proof.
+  intros Hmv Hp. pose proof (mv_pj d s Hmv _ _ Hp) as Hv. unfold valid_project in Hv. bdestr Hv. auto.
+Qed.
+
+Lemma h_mint_MV d e s issuer denom iss otx s' r evs :
+  MV d s -> (match otx with Some o => vb_origin_tx o = true | None => True end) ->
+  h_mint_batch_credits e s issuer denom iss otx = LOk (s', r, evs) -> MV d s'.
+Proof.
+  intros Hmv Ho. unfold h_mint_batch_credits. intros Hh.
+  lstep Hh as kb Hkb. destruct kb as [bk ba]. lstep Hh as u Hu. lstep Hh as u2 Hu2. lstep Hh as pj Hpj.
+  lstep Hh as o Hotx. subst otx. lstep Hh as s1 H1. lstep Hh as ct Hct. lstep Hh as s2 H2. apply ret_inv in Hh. subst s'.
+  destruct (project_class_nz d s _ _ Hmv Hpj) as (_ & Hck & _).
+  apply (insert_origin_tx_MV d _ _ _ _ Hmv Hck Ho) in H1.
+  eapply meq_MV; [|exact H1]. eapply lfold_meq; [|exact H2]. intros; eapply mint_issue_meq; eassumption.
+Qed.
+
+(* ---- CreateBatch ---- *)
+
+Lemma create_batch_issue_meq p bk acc i acc' : create_batch_issue p bk acc i = LOk acc' -> meq acc.1.1 acc'.1.1.
+Proof.
+  unfold create_batch_issue. destruct acc as [[s t] r]. intros Hh. linv Hh. reflexivity.
+Qed.
+
+(* what the wire format guarantees about the two dates of MsgCreateBatch / MsgBridgeReceive
+   (gogoproto stdtime decoding rejects timestamps outside 0001-01-01 .. 9999-12-31), plus, for the
+   full validator (d = true), the STRICT order that Batch.Validate demands *)
+Definition dates_ok (d : bool) (start_ end_ : option ts) : Prop :=
+  match start_, end_ with
+  | Some sd, Some ed => ts_valid sd = true /\ ts_valid ed = true /\ (d = true -> timestamp_compare ed sd = Gt)
+  | _, _ => True
+  end.
+
+Lemma h_create_batch_MV d e s issuer project_id iss metadata start_ end_ open otx s' r evs :
+  MV d s -> len_le metadata max_metadata_length = true -> dates_ok d start_ end_ ->
+  (match otx with Some o => vb_origin_tx o = true | None => True end) ->
+  h_create_batch e s issuer project_id iss metadata start_ end_ open otx = LOk (s', r, evs) -> MV d s'.
+Proof.
+  intros Hmv Hmd Hd Ho. unfold h_create_batch. intros Hh.
+  lstep Hh as kp Hkp. destruct kp as [pk pj]. lstep Hh as cl Hcl. lstep Hh as u Hu. cbv zeta in Hh.
+  lstep Hh as sd Hsd. lstep Hh as ed Hed. subst start_ end_. lstep Hh as u2 Hu2. lstep Hh as ct Hct.
+  lstep Hh as acc Hacc. destruct acc as [[s1 tsum] rsum]. lstep Hh as m Hm. lstep Hh as s2 H2.
+  apply ret_inv in Hh. subst s'.
+  apply project_by_id_Some in Hkp. destruct Hkp as [Hpj _].
+  destruct (project_class_nz d s _ _ Hmv Hpj) as (Hpk & Hck & Hpid).
+  destruct Hd as (Hvs & Hve & Hord).
+  (* the state after the batch row and the sequence are written *)
+  match type of Hacc with lfold _ _ (?s0, _, _) = _ => set (sb := s0) in * end.
+  assert (Hsb : MV d sb).
+  { subst sb. mv_updates Hmv.
+    - apply fa_insert; [|assumption]. unfold vbd, valid_batch_except_dates. cbn.
+      rewrite nz_succ, Hpk, (format_batch_denom_valid _ _ _ _ Hpid Hvs Hve), Hmd. cbn.
+      destruct d; [|reflexivity]. unfold valid_batch_dates. cbn. rewrite (Hord eq_refl). reflexivity.
+    - apply fa_insert; [|assumption]. unfold valid_batch_sequence. rewrite Hpk, nz_succ. reflexivity. }
+  assert (Hs1 : MV d s1).
+  { eapply meq_MV; [|exact Hsb].
+    change sb with (sb, dzero, dzero).1.1. change s1 with (s1, tsum, rsum).1.1.
+    eapply (lfold_rel (fun a c => meq a.1.1 c.1.1)); [intros; apply meq_refl | intros ? ? ? A B; eapply meq_trans; eassumption | | exact Hacc].
+    intros; eapply create_batch_issue_meq; eassumption. }
+  assert (Hs1' : MV d (s1 <| supplies := m |>)) by (eapply meq_MV; [|exact Hs1]; reflexivity).
+  destruct otx as [o|]; [|inversion H2; subst; exact Hs1'].
+  lstep H2 as s3 H3. apply (insert_origin_tx_MV d _ _ _ _ Hs1' Hck Ho) in H3.
+  destruct (ot_contract o) as [|c0 cr] eqn:Ec; [inversion H2; subst; exact H3|].
+  destruct (contract_taken _ _ _); [discriminate|]. lstep H2 as m2 Hm2. inversion H2; subst.
+  apply orm_insert_ok in Hm2. destruct Hm2 as [-> _].
+  mv_updates H3. apply fa_insert; [|assumption].
+  unfold valid_batch_contract. cbn. rewrite nz_succ, Hck. cbn.
+  unfold vb_origin_tx in Ho. bdestr Ho. rewrite Ec in Ho1. exact Ho1.
 Qed.
